@@ -3,6 +3,7 @@ package props
 import (
 	"encoding/json"
 	"fmt"
+	"os"
 	"path/filepath"
 	"sort"
 	"strings"
@@ -563,6 +564,140 @@ func c14Sources(r *core.Run, dir string) {
 		sw, _ := rowsOf(p, "SELECT d, c2, c1 FROM wt;")
 		add("reuse:writer:swap-assignment", "UPDATE wt SET c1 = d, d = c1; SELECT d, c2, c1 FROM wt", [][]string{before}, sw)
 		p.End()
+	}
+	// (6) the items of one select list read the same rows: a statement with the items x, y gives, column by column, what the
+	// statements with x alone and with y alone give (aggregates with and without DISTINCT over one grouped column, the same
+	// functions with OVER, in both orders) - evaluating one item never changes what the next one reads
+	{
+		p, err := sut.NewProc(dir, nil)
+		if err != nil {
+			core.Fail("proc: %v", err)
+		}
+		writeFile(filepath.Join(dir, "g.csv"), "id,k,v\n1,a,1\n2,a,1\n3,a,2\n4,b,3\n5,b,3\n6,b,3\n7,c,\n8,c,5\n9,c,5\n10,a,2\n")
+		aggs := []string{"COUNT(DISTINCT v)", "SUM(v)", "COUNT(v)", "LISTAGG(v, ',')", "SUM(DISTINCT v)", "AVG(v)", "MEDIAN(v)", "MAX(v)", "COUNT(*)",
+			"LISTAGG(DISTINCT v, ',')", "MEDIAN(DISTINCT v)", "JSON_AGG(v)", "AVG(DISTINCT v)", "MIN(DISTINCT v)"}
+		forms := []struct{ name, sel, tail string }{
+			{"group", "SELECT k, %s FROM g", " GROUP BY k"},
+			{"all", "SELECT %s FROM g", ""},
+			{"over", "SELECT id, %s FROM g", ""},
+		}
+		for _, f := range forms {
+			item := func(a string) string {
+				if f.name == "over" {
+					if strings.HasPrefix(a, "LISTAGG") || strings.HasPrefix(a, "JSON_AGG") {
+						return a + " OVER (PARTITION BY k ORDER BY id)"
+					}
+					return a + " OVER (PARTITION BY k)"
+				}
+				return a
+			}
+			alone := map[string][]string{}
+			for _, a := range aggs {
+				rows, e := rowsOf(p, fmt.Sprintf(f.sel, item(a)+" AS x")+f.tail+";")
+				if e != "" {
+					continue // not available in this form (e.g. DISTINCT with OVER)
+				}
+				alone[a] = rows
+			}
+			for _, a := range aggs {
+				for _, b := range aggs {
+					if a == b || alone[a] == nil || alone[b] == nil {
+						continue
+					}
+					sql := fmt.Sprintf(f.sel, item(a)+" AS x, "+item(b)+" AS y") + f.tail
+					whole, e := rowsOf(p, sql+";")
+					if e != "" {
+						r.Violation("reuse:select-list:"+f.name+":error:"+e, sql+" fails with "+e, map[string]interface{}{"sql": sql})
+						continue
+					}
+					// the part with b alone: drop its leading key / id column
+					pb := make([]string, len(alone[b]))
+					for i, row := range alone[b] {
+						if k := strings.Index(row, "|"); f.name != "all" && k >= 0 {
+							pb[i] = row[k+1:]
+						} else {
+							pb[i] = row
+						}
+					}
+					evs = append(evs, relEvent{SQL: sql, Sig: "reuse:select-list:" + f.name, CPU: 1, Ev: map[string]interface{}{"kind": "columns", "parts": [][]string{alone[a], pb}, "whole": whole}})
+					r.Count("select_list_pairs", 1)
+				}
+			}
+		}
+		p.End()
+	}
+	// (7) the table read from standard input (the real binary): reader, plain read / plain, reader, plain in one run give
+	// what each statement gives in a run of its own
+	{
+		stdin := "c1,c2,d\n1,a,2\n2,b,4\n3,a,6\n4,,8\n5,c,10\n"
+		runBin := func(prog string) ([][]string, string) {
+			d := r.Dir("c14stdin")
+			defer os.RemoveAll(d)
+			_ = os.MkdirAll(d, 0755)
+			rs := sut.RunBin(sut.BinOpts{Csvq: r.Csvq, Dir: d, Args: []string{"--repository", d, "--format", "JSON", "--quiet", prog}, Stdin: stdin, Timeout: 60 * time.Second})
+			if rs.Exit != 0 || rs.IsFatal() {
+				return nil, fmt.Sprintf("exit %d: %s", rs.Exit, firstLine(rs.Stderr))
+			}
+			ts, err := sut.ParseJSONTables(rs.Stdout)
+			if err != nil {
+				return nil, "unparsable output"
+			}
+			var out [][]string
+			for _, t := range ts {
+				rows := []string{}
+				for _, row := range t.Rows {
+					var cs []string
+					for _, c := range row {
+						cs = append(cs, c.String())
+					}
+					rows = append(rows, strings.Join(cs, "|"))
+				}
+				out = append(out, rows)
+			}
+			return out, ""
+		}
+		pl := fill(plain, "STDIN")
+		pOnly, e0 := runBin(pl + ";")
+		if e0 != "" || len(pOnly) != 1 {
+			core.Fail("c14 stdin: %s: %s", pl, e0)
+		}
+		for ri, rd := range readers {
+			if strings.Contains(rd, " a JOIN ") || strings.Contains(rd, "(SELECT MAX") {
+				continue
+			}
+			q := fill(rd, "STDIN")
+			rOnly, e1 := runBin(q + ";")
+			if e1 != "" || len(rOnly) != 1 {
+				r.Violation("reuse:source:stdin:error", q+" fails: "+e1, map[string]interface{}{"sql": q})
+				continue
+			}
+			for _, shape := range [][]string{{"r", "p"}, {"p", "r", "p"}, {"r", "r"}} {
+				var qs []string
+				var parts [][]string
+				for _, k := range shape {
+					if k == "r" {
+						qs, parts = append(qs, q), append(parts, rOnly[0])
+					} else {
+						qs, parts = append(qs, pl), append(parts, pOnly[0])
+					}
+				}
+				prog := strings.Join(qs, "; ") + ";"
+				got, e := runBin(prog)
+				if e != "" {
+					r.Violation("reuse:source:stdin:error", prog+" fails: "+e, map[string]interface{}{"sql": prog})
+					continue
+				}
+				var whole []string
+				for _, t := range got {
+					whole = append(whole, t...)
+				}
+				if whole == nil {
+					whole = []string{}
+				}
+				add(fmt.Sprintf("reuse:source:stdin:reader%d", ri), prog, parts, whole)
+				r.Count("stdin_programs", 1)
+			}
+		}
 	}
 	reported := map[string]bool{}
 	for _, i := range validateRel(r, evs) {
